@@ -323,19 +323,19 @@ Definition lower_prog (fd : bool) (p : block) := lower_top fd p [] l0.
 
 (* statement by statement (C14 direct run): after each top-level statement either the
    active registers or the error *)
-Inductive stepres := StepOk (active : list nat) (peak : nat) (mused : list nat) | StepErr (e : lerr).
+Inductive stepres := StepOk (active : list nat) (peak : nat) (mused mscr : list nat) | StepErr (e : lerr).
 
 Fixpoint lower_steps (fd : bool) (b : block) (acc : list sir) (st : lst) : list stepres :=
   match b with
   | BNil => []
   | BCons SFlush r =>
       match lower_flush acc st with
-      | Ok (_, st1) => StepOk (active_list st1) (l_peak st1) (mused_list st1) :: lower_steps fd r [] st1
+      | Ok (_, st1) => StepOk (active_list st1) (l_peak st1) (mused_list st1) (mscr_list st1) :: lower_steps fd r [] st1
       | Err e => [StepErr e]
       end
   | BCons s r =>
       match lower_stmt fd s st with
-      | Ok (c, st1) => StepOk (active_list st1) (l_peak st1) (mused_list st1) :: lower_steps fd r (acc ++ c) st1
+      | Ok (c, st1) => StepOk (active_list st1) (l_peak st1) (mused_list st1) (mscr_list st1) :: lower_steps fd r (acc ++ c) st1
       | Err e => [StepErr e]
       end
   end.
